@@ -53,6 +53,11 @@ class Mut:
         bs = (v & ((1 << (8 * n)) - 1)).to_bytes(n, 'little' if le else 'big')
         b[off:off + n] = bs
     def mut_bytes(self, b, others):
+        b2 = self.mut_bytes0(b, others)
+        # EtherType and version mostly stay what the daemons' sockets deliver (the properties speak about LLTD frames)
+        if len(b2) >= 15 and len(b) >= 15 and self.rng.random() < 0.9: b2[12:15] = b[12:15]
+        return b2
+    def mut_bytes0(self, b, others):
         r = self.rng; b = bytearray(b)
         k = r.random()
         if not b: return bytearray(r.getrandbits(8) for _ in range(r.choice([1, 14, 32, 46])))
